@@ -351,6 +351,25 @@ def r2_form_selection(ctx, rep):
     ok = any(e.kind == "raise" and "ValueError" in e.text() and any("extensions" in c and " in " in c for c in e.cond_texts())
              and any("fixed" in x for x in e.cond_texts() + [ast.unparse(l.iter) for l in e.loops]) for e in pev)
     rep.ob("an extension cannot be both fixed and free form", ok, "", py.nloc(po))
+    # nothing removes entries from fixed_extensions after validation: the free-form list is later merged with
+    # fpp_extensions (which contain F / FOR), so "dropping the duplicates" would turn those into free form
+    shrinks = []
+    for q in ("ProjectSettings.__post_init__", "Project.__init__", "__init__.parse_arguments"):
+        fq = py.func(q)
+        for n in ast.walk(fq):
+            if isinstance(n, ast.Assign) and any(ast.unparse(t).endswith(".fixed_extensions") for t in n.targets):
+                v = n.value
+                if any(isinstance(x, ast.comprehension) and x.ifs for x in ast.walk(v)) or \
+                        (isinstance(v, ast.BinOp) and isinstance(v.op, ast.Sub)) or any(
+                            isinstance(c, ast.Call) and call_name(c).split(".")[-1] in ("difference", "filter") for c in ast.walk(v)):
+                    shrinks.append(n)
+            if isinstance(n, ast.Call) and isinstance(n.func, ast.Attribute) and n.func.attr in ("remove", "pop", "clear", "discard") \
+                    and ast.unparse(n.func.value).endswith(".fixed_extensions"):
+                shrinks.append(n)
+    rep.ob("fixed_extensions is never reduced", not shrinks,
+           "no statement filters or removes fixed extensions" if not shrinks else
+           f"`{ast.unparse(shrinks[0])[:80]}` removes extensions from fixed_extensions: `.F`/`.FOR` (also preprocessor extensions, "
+           f"hence merged into the free-form list) lose their fixed-form status and are parsed as free form", py.nloc(shrinks[0]) if shrinks else py.nloc(po))
     lx = py.func("FortranSourceFile.__init__")
     ok = any(isinstance(n, (ast.IfExp, ast.If)) and "fixed" in ast.unparse(n.test) and "FortranFixedLexer" in ast.unparse(n) for n in ast.walk(lx))
     rep.ob("source listing uses the matching lexer", ok, "", py.nloc(lx), nontrivial=False)
